@@ -13,7 +13,7 @@ import itertools
 from fractions import Fraction
 
 from ..core import Infra, LEAN, REPO, Prop, Violation, import_repo, run_model, write_if_changed
-from ..extract import e5_metabolism
+from ..extract import e5_metabolism, py2lean_metabolism
 
 CURS = ["atp", "gtp", "nadh"]
 RATES = [(1, 10), (1, 10), (1, 4), (1, 2), (1, 1), (0, 1), (2, 1), (1, 8)]
@@ -52,7 +52,7 @@ class C04(Prop):
     id = "C04"
     title = "Energy ledger: no overdraft, exact charging, free failures, bounded total spend"
     fixed_prefix = 2
-    extractors = ["E5-metabolism"]
+    extractors = ["E5-metabolism", "py2lean-metabolism"]
     quick_budget = 4000
     thorough_budget = 60000
     quick_deadline_s = 120
@@ -101,7 +101,7 @@ class C04(Prop):
         r = e5_metabolism.run(REPO, LEAN, write_if_changed)
         w = e5_metabolism.extract_facts(REPO).get("debtWeight")
         self.debt_weight = float(w) if not isinstance(w, e5_metabolism.Unrecognised) else 0.5
-        return [r]
+        return [r, py2lean_metabolism.run(REPO, LEAN, write_if_changed)]
 
     def _ensure_fcheck(self):
         """Lean Float vs Python float on the classifier: same threshold doubles, same verdict on a grid that
